@@ -1,4 +1,5 @@
 import PoorModel.Digest
+import PoorProofs.Lemmas.Digest
 /-
 C11 - digest-protected endpoints run only for correctly authenticated requests.
 -/
@@ -328,6 +329,21 @@ theorem C11_complete (app : App) (rq : Rq) (c : Client) (reqUser : Option Str)
           · simp only [List.mem_cons, List.not_mem_nil, or_false] at hk
             subst hk; simp [g10]
           · cases hk }
+
+/-- **completeness from the header text**: the Authorization header itself - tokenized by the
+    model of `RE_AUTHORIZATION`, unquoted, transcoded - lets the client in.  (Values must be
+    non-empty and free of `"` in their wire form, as RFC 7616 quoted strings without escapes are.) -/
+theorem C11_complete_wire (app : App) (rq : Rq) (c : Client) (reqUser : Option Str)
+    (hv : ∀ kv ∈ wireFields H app rq.method c, kv.2 ≠ [] ∧ '"' ∉ kv.2)
+    (hreg : lookupUser app c.realm c.user = some (a1 H c)) (hne : (a1 H c).isEmpty = false)
+    (hnonce : Token.checkToken Hn c.nonce app.secret rq.agent app.timeout rq.now = true)
+    (huri : ∃ u full, Query.unquote c.uri = some u ∧ comparePath rq = some full ∧ endsWith u full = true)
+    (hreq : ∀ n, reqUser = some n → n.isEmpty = false → c.user = n) :
+    (authDict (renderAuth (wireFields H app rq.method c))).map
+        (fun d => gate H Hn app rq c.realm reqUser (some d)) = some (.run c.user) := by
+  rw [C11_wire H app rq.method c hv]
+  simp only [Option.map_some]
+  rw [C11_complete H Hn app rq c reqUser hreg hne hnonce huri hreq]
 
 /-! ### the known finding: the uri is compared by suffix -/
 
